@@ -40,6 +40,7 @@ OBSERVABLE = {  # which from_json slots of the real classes can be observed on t
     "JointDistributionModel": ["distributions"],
     "Taxon": [],
     "Taxa": ["taxa"],
+    "Alignment": ["taxa"],
     "UnRootedTreeModel": ["taxa", "branch_lengths"],
     "TimeTreeModel": ["taxa", "internal_heights"],
     "ReparameterizedTimeTreeModel": ["taxa", "shifts", "root_height", "ratios"],
@@ -61,6 +62,7 @@ def setup(classes):
     import torchtree.core.utils as U
     import torchtree.distributions.distributions  # noqa: F401
     import torchtree.distributions.joint_distribution  # noqa: F401
+    import torchtree.evolution.alignment  # noqa: F401
     import torchtree.evolution.taxa  # noqa: F401
     import torchtree.evolution.tree_model  # noqa: F401
     import torchtree.evolution.tree_model_flexible  # noqa: F401
@@ -119,6 +121,10 @@ def _make_generic(cname, slots, U, base, selfreg=None):
                 return obj      # kids is the very list the object holds: now complete
             return cls(data["id"], kids)
 
+    if cname == "VFalsy":
+        V.__bool__ = lambda self: False
+    if cname == "VEmpty":
+        V.__len__ = lambda self: 0
     V.__name__ = V.__qualname__ = cname
     return V
 
@@ -232,6 +238,8 @@ def py_kids(o):
         return [("distributions", list(o._distributions.models()))]
     if n == "Taxa":
         return [("taxa", list(o))]
+    if n == "Alignment":
+        return [("taxa", [o.taxa])]
     if n == "UnRootedTreeModel":
         return [("taxa", [o._taxa]), ("branch_lengths", [o._branch_lengths])]
     if n in ("TimeTreeModel", "FlexibleTimeTreeModel"):
@@ -263,28 +271,93 @@ def canon_lean(results, reg, heap):
 
 
 # ---------------------------------------------------------------------- the property's predicates
+def _descend(o):
+    """(attribute name, value) pairs to follow from `o`: every attribute, every element of a container"""
+    import collections
+
+    if isinstance(o, (list, tuple, set, frozenset, collections.UserList)):
+        return [(None, x) for x in (o.data if isinstance(o, collections.UserList) else o)] + \
+            (list(vars(o).items()) if hasattr(o, "__dict__") else [])
+    if isinstance(o, (dict, collections.UserDict)):
+        return [(None, x) for x in (o.data if isinstance(o, collections.UserDict) else o).values()] + \
+            (list(vars(o).items()) if hasattr(o, "__dict__") else [])
+    mod = type(o).__module__ or ""
+    if hasattr(o, "__dict__") and (mod.startswith("torchtree") or hasattr(type(o), "_slots")):
+        return list(vars(o).items())
+    return []
+
+
+def all_holders(results, dic):
+    """every object with an id reachable from the results and from every registered object through ANY attribute,
+    container, argument dict or listener list (not only the slots the class table knows): [(object, holder, attribute)]"""
+    out, seen = [], set()
+    stack = [(o, None, None) for rs in results for o in rs] + [(o, None, None) for o in dic.values()]
+    while stack:
+        o, holder, attr = stack.pop()
+        if o is None or isinstance(o, (str, int, float, bool)) or id(o) in seen:
+            continue
+        seen.add(id(o))
+        try:
+            i = getattr(o, "id", None)
+        except Exception:  # noqa: BLE001
+            i = None
+        if isinstance(i, str):
+            out.append((o, holder, attr))
+        for a, v in _descend(o):
+            stack.append((v, o, a))
+    return out
+
+
 def sharing_violations(results, dic):
-    """after an ACCEPTED load: (i) dic[k].id == k; (ii) every reachable object that has an id is the
-    registered instance (identity), hence (iii) two distinct reachable objects never share an id"""
+    """after an ACCEPTED load: (i) dic[k].id == k; (ii) every object that has an id and is reachable from ANY registered
+    object through any attribute / container IS the registered instance (identity), hence (iii) two distinct objects
+    never share an id.  Truthiness of the objects is never consulted (empty Taxon/Taxa/Alignment are falsy)."""
     bad = []
-    seen = {}
-    stack = [o for rs in results for o in rs] + list(dic.values())
     for k, o in dic.items():
         if getattr(o, "id", k) != k:
             bad.append(("registered-under-other-id", k, getattr(o, "id", None)))
-    while stack:
-        o = stack.pop()
-        if id(o) in seen:
+    for o, holder, attr in all_holders(results, dic):
+        i = o.id
+        if type(o).__name__ == "CatParameter" and i == "x" and dic.get("x") is not o:
+            continue   # Distribution wraps a LIST x in CatParameter('x', …): internal, never registered
+        if i not in dic:
+            bad.append(("holder-of-unregistered-id", i, type(holder).__name__, attr))
+        elif dic[i] is not o:
+            bad.append(("two-objects-one-id", i, type(holder).__name__, attr))
+    return bad
+
+
+def update_violations(dic):
+    """update every registered plain Parameter THROUGH THE REGISTRY'S INSTANCE, then re-evaluate every Distribution and
+    compare with a torch distribution built directly from the registry's tensors: an unshared copy held inside a
+    distribution (same id, stale value) shows here even if it looked identical right after loading"""
+    import torch
+
+    bad = []
+    params = [o for o in dic.values() if type(o).__name__ == "Parameter" and o.tensor.is_floating_point()]
+    dists = [o for o in dic.values() if type(o).__name__ == "Distribution"]
+    if not dists:
+        return bad
+    try:
+        for d in dists:
+            d()          # populate caches first
+    except Exception:  # noqa: BLE001
+        return bad
+    for n, p in enumerate(params):
+        p.tensor = p.tensor.detach() * 1.5 + 0.25 * (n + 1)
+    for d in dists:
+        try:
+            args = {}
+            for name, q in d.dict_parameters.items():
+                args[name] = dic[q.id].tensor if q.id is not None and q.id in dic else q.tensor
+            x = d.x
+            xt = dic[x.id].tensor if getattr(x, "id", None) in dic and dic[x.id] is not None and x.id != "x" else x.tensor
+            want = d.dist(**args).log_prob(xt)
+            got = d()
+        except Exception:  # noqa: BLE001  (shape / support problems unrelated to sharing)
             continue
-        seen[id(o)] = o
-        i = getattr(o, "id", None)
-        if i is not None:
-            if i not in dic:
-                bad.append(("holder-of-unregistered-id", i))
-            elif dic[i] is not o:
-                bad.append(("two-objects-one-id", i))
-        for _k, cs in py_kids(o):
-            stack.extend(cs)
+        if want.shape != got.shape or not torch.allclose(want.to(got.dtype), got, rtol=1e-6, atol=1e-9, equal_nan=True):
+            bad.append(("update-not-seen", d.id, [q.id for q in d.dict_parameters.values()]))
     return bad
 
 
@@ -404,9 +477,14 @@ def oracle(ck, U, spec, real, tag, found):
     oc = real["outcome"]
     if oc[0] == "ok":
         bad = sharing_violations(oc[1], oc[2])
+        if not bad:
+            try:
+                bad = update_violations(oc[2])
+            except Exception as e:  # noqa: BLE001
+                ck.notes.append(f"update check raised {type(e).__name__}: {e}"[:200])
         if bad:
-            found.append(("duplicate-id-accepted" if any(b[0] == "two-objects-one-id" for b in bad) else bad[0][0],
-                          spec, tag, bad))
+            found.append(("duplicate-id-accepted" if any(b[0] in ("two-objects-one-id", "update-not-seen") for b in bad)
+                          else bad[0][0], spec, tag, bad))
         elif expected_reject(tag):
             sig = "duplicate-id-accepted" if tag[0].startswith("dup") else f"malformed-accepted:{tag[0]}"
             found.append((sig, spec, tag, []))
@@ -536,6 +614,7 @@ def small_family():
     out.append(([leaf("t"), {"id": "t", "type": "VSelf", "inner": leaf("h")}], ("dup-small", True, {})))
     out.append(([{"id": "t", "type": "VSelf", "inner": {"id": "m", "type": "VOne", "x": leaf("t")}}], ("dup-small", True, {})))
     out += tree_family()
+    out += falsy_family()
     # references: shared, forward, dangling, to the enclosing object
     out.append(([leaf("a"), {"id": "p", "type": "VPair", "a": "a", "b": "a"}], None))
     out.append(([{"id": "p", "type": "VOne", "x": "a"}, leaf("a")], ("forward", True, {})))
@@ -628,6 +707,53 @@ def tree_family():
     return out
 
 
+def falsy_family():
+    """registered objects that are FALSY in Python (attribute-less Taxon = empty UserDict, empty Taxa = empty UserList,
+    generic objects with __bool__ False / __len__ 0): their id is taken all the same — defining it again anywhere must be
+    rejected, and references to them must resolve to the one instance"""
+    out = []
+    kinds = {
+        "Taxon": lambda i: {"id": i, "type": "Taxon"},
+        "Taxa": lambda i: {"id": i, "type": "Taxa", "taxa": []},
+        "VFalsy": lambda i: {"id": i, "type": "VFalsy"},
+        "VEmpty": lambda i: {"id": i, "type": "VEmpty"},
+    }
+    leaf = lambda i: {"id": i, "type": "VLeaf"}  # noqa: E731
+    for k, mk in kinds.items():
+        tag = ("dup-falsy:" + k, True, {})
+        out.append(([mk("a"), mk("a")], tag))                                              # twice at top level
+        out.append(([mk("a"), leaf("a")], tag))                                            # then an ordinary object
+        out.append(([leaf("a"), mk("a")], tag))
+        out.append(([mk("a"), {"id": "p", "type": "VOne", "x": mk("a")}], tag))            # then nested
+        out.append(([{"id": "p", "type": "VOne", "x": mk("a")}, mk("a")], tag))
+        out.append(([{"id": "p", "type": "VPair", "a": mk("a"), "b": mk("a")}], tag))      # siblings
+        out.append(([{"id": "a", "type": "VOne", "x": mk("a")}], tag))                     # child of an object with its id
+        out.append(([{"id": "t", "type": "VSelf", "pre": mk("t"), "inner": leaf("h")}], tag))
+        out.append(([{"id": "t", "type": "VSelf", "inner": mk("t")}], tag))
+        out.append(([mk("a"), {"id": "p", "type": "VPair", "a": "a", "b": "a"}], None))    # shared by reference
+        out.append(([{"id": "p", "type": "VOne", "x": "a"}, mk("a")], ("forward", True, {})))
+    # what UnRootedTreeModel.json_factory(..., taxa={...}) emits: attribute-less taxa; one of them defined twice
+    bare = lambda n: {"id": n, "type": "Taxon"}  # noqa: E731
+    tree = {"id": "T", "type": "UnRootedTreeModel", "newick": "((tA:1,tB:1):1,tC:2);",
+            "taxa": {"id": "tx", "type": "Taxa", "taxa": [bare("tA"), bare("tB"), bare("tC")]},
+            "branch_lengths": {"id": "bl", "type": "Parameter", "tensor": [0.5, 0.25, 1.0]}}
+    out.append(([copy.deepcopy(tree)], None))
+    out.append(([bare("tA"), copy.deepcopy(tree)], ("dup-falsy:Taxon", True, {})))
+    out.append(([copy.deepcopy(tree), bare("tB")], ("dup-falsy:Taxon", True, {})))
+    out.append(([{"id": "tx", "type": "Taxa", "taxa": []}, copy.deepcopy(tree)], ("dup-falsy:Taxa", True, {})))
+    # mixed dtypes around a Distribution: x float64, hyper-parameters without dtype (float32), shared with other holders
+    par = lambda i, v, dt=None: dict({"id": i, "type": "Parameter", "tensor": v}, **({"dtype": dt} if dt else {}))  # noqa: E731
+    for dist, args in (("torch.distributions.Normal", ("loc", "scale")), ("torch.distributions.Gamma", ("concentration", "rate"))):
+        for xdt, pdt in (("torch.float64", None), (None, "torch.float64"), ("torch.float64", "torch.float32")):
+            out.append(([par("m", [1.0], pdt), par("s", [2.0], pdt),
+                         {"id": "d", "type": "Distribution", "distribution": dist, "x": par("y", [0.5, 1.5], xdt),
+                          "parameters": {args[0]: "m", args[1]: "s"}},
+                         {"id": "v", "type": "ViewParameter", "parameter": "m", "indices": ":"},
+                         {"id": "d2", "type": "Distribution", "distribution": dist, "x": "y",
+                          "parameters": {args[0]: "m", args[1]: {"id": "s2", "type": "Parameter", "tensor": [3.0]}}}], None))
+    return out
+
+
 def check_signatures(ck, U, sigs):
     import inspect
 
@@ -696,8 +822,10 @@ def make_pred(U, sig):
     if sig == "duplicate-id-accepted":
         def pred(spec):
             oc = real_pipeline(U, spec)["outcome"]
-            return oc[0] == "ok" and (any(b[0] == "two-objects-one-id" for b in sharing_violations(oc[1], oc[2]))
-                                      or dup_literal_ids(spec))
+            if oc[0] != "ok":
+                return False
+            return (any(b[0] == "two-objects-one-id" for b in sharing_violations(oc[1], oc[2]))
+                    or bool(update_violations(oc[2])) or bool(dup_literal_ids(spec)))
         return pred
     if sig == "duplicate-reported-for-unique-id":
         def pred3(spec):
